@@ -1,5 +1,6 @@
 import ParryModel.Proto
 import ParryModel.C17.Model
+import ParryModel.C17.CutModel
 /-! C17 protocol handlers: model evaluation at `Float` and exact-`Rat` oracles on implementation output. -/
 namespace C17
 open Model Proto
@@ -681,6 +682,68 @@ def sectionOracle (m : MeshF) (sd : V3 Rat → Rat) (colF : Option (V3 Float →
        then "fail crossed-edge-without-polyline-vertex" else "pass")
   | _ => "fail unparsable-output"
 
+/-! ### the cutting part of `TriMesh::local_split` (modelled: `Model.Cut.localSplitUncapped`) -/
+
+def fmeshOut (m : List (V3 Float) × List Tri) : String :=
+  m.2.foldl (fun s t => s ++ s!" {t.1} {t.2.1} {t.2.2}") (fpts m.1 ++ s!" {m.2.length}")
+
+def fcut : Option (Split (Cut.MeshOut Float)) → String
+  | none => "panic"
+  | some .negative => "neg"
+  | some .positive => "pos"
+  | some (.pair l r) => s!"pair {fmeshOut l} {fmeshOut r}"
+
+/-- oracle for the cutting part of `TriMesh::local_split` on a mesh without caps (clause "pieces lie in their own closed
+half-space and their total area equals the original's", per triangle). First everything `splitOracle` asks (verdicts, sides, total
+area). Then, when the floating-point colours are the exact ones:
+* every output vertex is an input vertex (bit-identical) or lies on the plane and on an input edge whose end points are beyond
+  `eps` on opposite sides;
+* crossing points are shared: each half has exactly (its input vertices) + (number of crossed undirected edges) vertices;
+* every output triangle lies in exactly one input triangle (skipped when input faces overlap), has the orientation of that
+  triangle, and the vector areas `(b-a)×(c-a)` of the pieces of each input triangle (both halves together) add up to the
+  triangle's. -/
+def cutOracle (m : MeshF) (sd : V3 Rat → Rat) (colF : V3 Float → Nat) (e : Rat) (scale : Rat) (o : List String) : String :=
+  let base := splitOracle { m with oriented := false } sd (some colF) e scale o
+  if base != "pass" then base else
+  match o with
+  | "pair" :: rest =>
+    (match run (do let l ← pmeshOut; let r ← pmeshOut; pend; pure (l, r)) rest with
+     | none => "fail unparsable-output"
+     | some ((lp, lt), (rp, rt)) =>
+       let P := (m.pts.map q3).toArray
+       let L := (lp.map q3).toArray; let R := (rp.map q3).toArray
+       let t := tol * scale
+       let S := P.toList.map sd
+       let cols := (m.pts.map colF).toArray
+       let ambiguous := (cols.toList.zip S).any fun (c, sx) => (c != 0 && rabs sx ≤ e + t) || (c == 0 && rabs sx > e + t)
+       if ambiguous then "pass" else
+       let und := (m.tris.flatMap fun (a, b, c) => [(a, b), (b, c), (c, a)]).map fun (a, b) => if a < b then (a, b) else (b, a)
+       let crossed := und.eraseDups.filter fun (a, b) => (cols[a]! == 1 && cols[b]! == 2) || (cols[a]! == 2 && cols[b]! == 1)
+       let isInput (p : V3 Rat) : Bool := P.toList.any (eqV3 p)
+       let isCrossing (p : V3 Rat) : Bool := rabs (sd p) ≤ t * 1000 && crossed.any fun (a, b) => onSegment P[a]! P[b]! p scale
+       if (L.toList ++ R.toList).any (fun p => !isInput p && !isCrossing p) then "fail new-vertex-not-a-plane-crossing-of-a-crossed-edge" else
+       let nl := (cols.toList.filter (· != 2)).length + crossed.length
+       let nr := (cols.toList.filter (· != 1)).length + crossed.length
+       if L.size != nl || R.size != nr then s!"fail crossing-points-not-shared l={L.size}/{nl} r={R.size}/{nr}" else
+       let outs : List (V3 Rat × V3 Rat × V3 Rat) := (lt.map (triPts L)) ++ (rt.map (triPts R))
+       let ins : List (V3 Rat × V3 Rat × V3 Rat) := m.tris.map (triPts P)
+       let nrm (x : V3 Rat × V3 Rat × V3 Rat) : V3 Rat := (x.2.1.sub x.1).cross (x.2.2.sub x.1)
+       let inside (T x : V3 Rat × V3 Rat × V3 Rat) : Bool :=
+         inTriangle3 T.1 T.2.1 T.2.2 x.1 scale && inTriangle3 T.1 T.2.1 T.2.2 x.2.1 scale && inTriangle3 T.1 T.2.1 T.2.2 x.2.2 scale
+       let owners := outs.map fun x => (x, (List.range ins.length).filter fun k => inside ins[k]! x)
+       if owners.any (fun (_, ks) => ks.isEmpty) then "fail piece-outside-every-input-triangle" else
+       if owners.any (fun (x, ks) => ks.length > 1 && maxAbs3 (nrm x) > t) then "pass overlapping-faces" else
+       let atol := (1 / 100000000 : Rat) * scale * scale
+       let bad := (List.range ins.length).filter fun k =>
+         let N := nrm ins[k]!
+         let mine := (owners.filter fun (x, ks) => ks == [k] ).map (·.1)
+         let sum := mine.foldl (fun acc x => acc.add (nrm x)) (⟨0, 0, 0⟩ : V3 Rat)
+         maxAbs3 (sum.sub N) > atol || mine.any fun x => (nrm x).dot N < -atol * (1 + maxAbs3 N)
+       match bad with
+       | k :: _ => s!"fail triangle-area-not-conserved-by-its-pieces tri={k}"
+       | [] => "pass")
+  | _ => "pass"
+
 /-! ### intersect_meshes and TriMesh::intersection_with_{local_cuboid, cuboid, aabb} (oracle-only) -/
 
 /-- a closed solid operand: its mesh in local coordinates, its pose, and — when it is not convex — boxes whose union it is -/
@@ -975,6 +1038,17 @@ def handler (fn : String) : Option Handler :=
           if q eps < 0 then "skip negative-epsilon" else
           if !nearR N.normSq 1 then "skip non-unit-normal" else
           splitOracle m (fun p => N.dot p - bi) (some (colourFloat n bias eps)) (q eps) (meshScale m bi) o
+        | none => "skip bad-args" }
+  | "tm_cut" => some {
+      model := fun a => run (do let m ← pmeshIn; let n ← pv3; let bias ← pf; let eps ← pf; pend
+                                pure (fcut (Cut.localSplitUncapped m.pts m.tris n bias eps))) a
+      oracle := fun a o => match run (do let m ← pmeshIn; let n ← pv3; let bias ← pf; let eps ← pf; pend; pure (m, n, bias, eps)) a with
+        | some (m, n, bias, eps) =>
+          if !(m.pts.all finite3 && finite3 n && FloatIO.isFinite bias && FloatIO.isFinite eps) then "skip nonfinite-input" else
+          let N := q3 n; let bi := q bias
+          if q eps < 0 then "skip negative-epsilon" else
+          if !nearR N.normSq 1 then "skip non-unit-normal" else
+          cutOracle m (fun p => N.dot p - bi) (colourFloat n bias eps) (q eps) (meshScale m bi) o
         | none => "skip bad-args" }
   | "tm_split_pos" => some {
       model := fun _ => some "oracle-only"
